@@ -1095,3 +1095,87 @@ def early_negative(ctx, repo, scope=("",), rule="EARLY-NEG", _self=False):
 
 NEW5 = [early_negative]
 GENERIC.extend(NEW5)
+
+
+# ---------------------------------------------------------------------------
+# OPT-UNUSED: an optional parameter that the function never reads
+# ---------------------------------------------------------------------------
+_POSITIVE["OPT-UNUSED"] = '''
+def _add_gvar(font, masterModel, master_ttfs, tolerance=0.5, optimize=True):
+    for glyph in font.getGlyphOrder():
+        build(glyph, masterModel, master_ttfs, optimize=optimize)
+'''
+# (module, function, parameter) -> why ignoring the option is accepted (each read)
+OPT_UNUSED_AUDIT = {
+    ("colorLib/geometry.py", "Circle.inside", "tolerance"): "the body uses the module constant the default comes from; a caller-supplied tolerance is ignored (not in a claimed property's anchors)",
+    ("designspaceLib/__init__.py", "BaseDocReader._readSingleInstanceElement", "makeGlyphs"): "legacy switches kept for signature compatibility; the reader always reads everything",
+    ("designspaceLib/__init__.py", "BaseDocReader._readSingleInstanceElement", "makeKerning"): "as makeGlyphs",
+    ("designspaceLib/__init__.py", "BaseDocReader._readSingleInstanceElement", "makeInfo"): "as makeGlyphs",
+    ("misc/psCharStrings.py", "getIntEncoder.encodeInt", "unpack"): "default-argument binding of globals for speed; unpack is simply not needed by the encoder",
+    ("otlLib/optimize/gpos.py", "_classDef_bytes", "coverage"): "size estimate does not distinguish coverage from class definitions; estimate only, never written",
+    ("ttLib/tables/_a_v_a_r.py", "table__a_v_a_r.renormalizeAxisLimits", "font"): "kept for API compatibility (the segment maps live on the table itself)",
+    ("ufoLib/__init__.py", "UFOWriter.removeImage", "validate"): "marked `XXX remove unused 'validate'?` upstream; nothing to validate when removing",
+    ("ufoLib/glifLib.py", "_readGlyphFromTreeFormat2", "formatMinor"): "no minor-version-specific behaviour exists yet for GLIF 2",
+    ("ufoLib/glifLib.py", "_writeGlyphToBytes", "writer"): "legacy parameter of the XMLWriter-based implementation; the etree writer ignores it",
+    ("varLib/avar/plan.py", "planOpticalSizeAxis", "sanitize"): "sibling planners sanitize; the opsz planner does not (upstream behaviour, not in a claimed property's anchors)",
+    ("varLib/models.py", "VariationModel.interpolateFromMasters", "round"): "this path applies master scalars to master values and never forms deltas, so there is nothing to round; the keyword is accepted for symmetry with interpolateFromMastersAndScalars",
+}
+
+
+def opt_unused(ctx, repo, scope=("",), rule="OPT-UNUSED", _self=False):
+    ctx.rule(rule, "an optional parameter (one with a default) of a function that is not an interface stub or one of several same-named methods is read somewhere in the body; an option that is accepted and ignored silently drops what the caller asked for (the usual way a forwarded keyword gets lost)", floor=1)
+    if not _self:
+        _selfcheck(ctx, rule, opt_unused)
+    method_names = {}
+    for rel in repo.rels():
+        for q, c in repo.mod(rel).classes.items():
+            for mn in c.methods:
+                method_names[mn] = method_names.get(mn, 0) + 1
+    for rel in sorted(repo.rels()):
+        if not _in_scope(rel, scope):
+            continue
+        m = repo.mod(rel)
+        total = 0
+        bad = []
+        for q, f in sorted(m.funcs.items()):
+            fn = f.node
+            if not isinstance(fn, ast.FunctionDef) or fn.decorator_list or fn.name.startswith("__"):
+                continue
+            if f.cls is not None and method_names.get(fn.name, 0) > 1:
+                continue  # one of several same-named methods: the signature is an interface
+            a = fn.args
+            nd = len(a.defaults)
+            opts = [x.arg for x in a.args[len(a.args) - nd:]] + [x.arg for x, d in zip(a.kwonlyargs, a.kw_defaults) if d is not None]
+            if not opts:
+                continue
+            if all(isinstance(s, (ast.Pass, ast.Raise)) or (isinstance(s, ast.Expr) and isinstance(s.value, ast.Constant)) for s in fn.body):
+                continue
+            if any(isinstance(n, ast.Call) and isinstance(n.func, ast.Name) and n.func.id in ("locals", "vars") for n in ast.walk(fn)):
+                continue
+            # a read that only validates the option (`if tolerance < 0: raise ...`, `assert ...`) does not put it to use
+            validating = set()
+            for st in ast.walk(fn):
+                # only a range / type test of the option's own value: one name, compared with constants
+                if isinstance(st, ast.If) and st.body and all(isinstance(b, ast.Raise) for b in st.body) and not st.orelse:
+                    names = {x.id for x in ast.walk(st.test) if isinstance(x, ast.Name)} - {"isinstance", "int", "float", "str", "bool", "bytes", "tuple", "list"}
+                    if len(names) == 1 and any(isinstance(x, ast.Compare) and isinstance(x.ops[0], (ast.Lt, ast.LtE, ast.Gt, ast.GtE)) for x in ast.walk(st.test)) or len(names) == 1 and any(isinstance(x, ast.Call) and isinstance(x.func, ast.Name) and x.func.id == "isinstance" for x in ast.walk(st.test)):
+                        validating |= {id(x) for x in ast.walk(st.test)}
+                        validating |= {id(x) for b in st.body for x in ast.walk(b)}
+            used = {n.id for n in ast.walk(fn) if isinstance(n, ast.Name) and isinstance(n.ctx, (ast.Load, ast.Del)) and id(n) not in validating}
+            for o in opts:
+                if o.startswith("_"):
+                    continue
+                total += 1
+                if o in used:
+                    continue
+                key = (rel, q.split("#")[0], o)
+                if key in OPT_UNUSED_AUDIT:
+                    ctx.ob(rule, f"{rel}:{q}", f"{o} (audited: {OPT_UNUSED_AUDIT[key]})", True)
+                else:
+                    bad.append(f"{q}: option `{o}` is never read")
+        if total:
+            ctx.ob(rule, f"{rel}:<module>", f"{total} optional parameters are each read by their function", not bad, "; ".join(bad[:3]))
+
+
+NEW6 = [opt_unused]
+GENERIC.extend(NEW6)
